@@ -262,7 +262,9 @@ KNOWN = {
         (1, M, 'Adv.anc: handed to set.update (order-blind); parameterised all the same'),
     'cellmlmanip/model.py|Model.graph|for|equation.atoms(Variable)':
         (1, B, 'resets Variable.type to None for every variable of every equation: idempotent, no order'),
-    'cellmlmanip/model.py|Model.graph|pop|lhs.free_symbols': (2, B, _POP),
+    'cellmlmanip/model.py|Model.graph|pop|lhs.free_symbols': (1, B, _POP),
+    'cellmlmanip/model.py|Model.graph|pop|equation.lhs.free_symbols':
+        (1, B, _POP + ' (the STATE loop added by the fix of finding permutation:derived-free-variable-with-equation)'),
     'cellmlmanip/model.py|Model.add_equation|pop|lhs.free_symbols': (1, B, _POP),
     'cellmlmanip/model.py|Model.remove_equation|pop|lhs.free_symbols': (1, B, _POP),
     'cellmlmanip/model.py|Model.graph_with_sympy_numbers|dictcomp|dummies': (1, B, _XR),
